@@ -1,0 +1,75 @@
+//go:build verif
+
+package spine
+
+// Contracts for govc (contract-based deductive verification; see /verif/DESIGN.md).
+// This file is comment-only and only compiled with -tags verif.
+//
+// Ghost state (specification only).
+//   evn, ev      : number of events published so far and the published payloads, in order
+//@ ghost evn int
+//@ ghost ev map[int]api.EventPayload
+
+// shared macros
+//@ define roleok(f, r) = f.Role() == model.RoleTypeSpecial || f.Role() == r
+//@ define typeok(f, t) = f.Type() == t || f.Type() == model.FeatureTypeTypeGeneric
+
+// ---------------------------------------------------------------------------------------
+// event bus (caller view; the body is verified against a stronger contract under C15)
+
+//@ func (*events).Publish trusted
+//@   ensures evn == old(evn) + 1 && ev == store(old(ev), old(evn), payload)
+//@   modifies evn, ev, world
+
+// ---------------------------------------------------------------------------------------
+// binding registry (C09, C10, C03)
+
+//@ func (*BindingManager).checkRoleAndType
+//@   requires feature != nil
+//@   ensures[C09] truth: (result == nil) <==> (roleok(feature, role) && typeok(feature, featureType))
+//@   modifies nothing
+
+//@ func (*BindingManager).bindingId
+//@   requires c != nil
+//@   ensures[C09] fresh-id: result == old(c.bindingNum) + 1 && c.bindingNum == result
+//@   modifies c.bindingNum
+
+//@ func (*BindingManager).HasLocalFeatureRemoteBinding
+//@   requires c != nil && localAddress != nil
+//@   ensures[C03,C09] exact: result <==> exists j int :: 0 <= j && j < len(c.bindingEntries) && deepEqual(*c.bindingEntries[j].ServerFeature.Address(), *localAddress) && deepEqual(c.bindingEntries[j].ClientFeature.Address(), remoteAddress)
+//@   modifies held
+//@   loop 0 invariant none-yet: forall m int :: 0 <= m && m < $k ==> !deepEqual($s[m].ClientFeature.Address(), remoteAddress)
+
+//@ func (*BindingManager).AddBinding
+//@   requires c != nil && remoteDevice != nil && data.ClientAddress != nil && data.ServerAddress != nil
+//@   let SF = c.localDevice.FeatureByAddress(data.ServerAddress)
+//@   let CF = remoteDevice.FeatureByAddress(data.ClientAddress)
+//@   let L0 = c.bindingEntries
+//@   define bound(sf) = exists j int :: 0 <= j && j < len(L0) && deepEqual(*L0[j].ServerFeature.Address(), *sf.Address())
+//@   define grantable = SF != nil && data.ServerFeatureType != nil && roleok(SF, model.RoleTypeServer) && typeok(SF, *data.ServerFeatureType) && !bound(SF) && CF != nil && roleok(CF, model.RoleTypeClient) && typeok(CF, *data.ServerFeatureType)
+//@   ensures[C09] granted-iff: (result == nil) <==> old(grantable)
+//@   ensures[C09] appended: result == nil ==> len(c.bindingEntries) == len(L0) + 1 && (forall j int :: 0 <= j && j < len(L0) ==> c.bindingEntries[j] == old(L0[j])) && c.bindingEntries[len(L0)].ServerFeature == SF && c.bindingEntries[len(L0)].ClientFeature == CF && c.bindingEntries[len(L0)].Id == old(c.bindingNum) + 1 && fresh(c.bindingEntries[len(L0)])
+//@   ensures[C09] unchanged: result != nil ==> c.bindingEntries == L0
+//@   ensures[C09] event: result == nil ==> evn == old(evn) + 1 && ev[old(evn)].EventType == api.EventTypeBindingChange && ev[old(evn)].ChangeType == api.ElementChangeAdd && ev[old(evn)].Feature == CF && ev[old(evn)].LocalFeature == SF
+//@   ensures[C09] noevent: result != nil ==> evn == old(evn)
+//@   modifies c.bindingEntries, c.bindingNum, c.bindingEntries[len(c.bindingEntries)], evn, ev, world, held
+
+//@ func (*BindingManager).RemoveBinding
+//@   requires c != nil && remoteDevice != nil && data.ClientAddress != nil && data.ServerAddress != nil
+//@   let SF = c.localDevice.FeatureByAddress(data.ServerAddress)
+//@   let CF = remoteDevice.FeatureByAddress(data.ClientAddress)
+//@   let CDEV = ite(data.ClientAddress.Device == nil, remoteDevice.Address(), data.ClientAddress.Device)
+//@   let L0 = c.bindingEntries
+//@   define addressed(e) = e.ServerFeature == SF && deepEqual(e.ClientFeature.Address().Device, CDEV) && deepEqual(e.ClientFeature.Address().Entity, data.ClientAddress.Entity) && deepEqual(e.ClientFeature.Address().Feature, data.ClientAddress.Feature)
+//@   define kept(e) = !addressed(e)
+//@   filter F loop 0 src L0 keep kept
+//@   ensures[C09] view: result == nil ==> len(c.bindingEntries) == Fcnt(len(L0)) && forall j int :: 0 <= j && j < len(L0) && kept(L0[j]) ==> c.bindingEntries[Fcnt(j)] == old(L0[j])
+//@   ensures[C09] removed: result == nil ==> Fcnt(len(L0)) < len(L0)
+//@   ensures[C09] unchanged: result != nil ==> c.bindingEntries == L0
+//@   ensures[C09] event: result == nil ==> evn == old(evn) + 1 && ev[old(evn)].EventType == api.EventTypeBindingChange && ev[old(evn)].ChangeType == api.ElementChangeRemove && ev[old(evn)].Feature == CF && ev[old(evn)].LocalFeature == SF
+//@   ensures[C09] noevent: result != nil ==> evn == old(evn)
+//@   modifies c.bindingEntries, evn, ev, world, held
+//@   loop 0 invariant acc: newBindingEntries == nil || freshPre(newBindingEntries)
+//@   loop 0 invariant frame: unchangedPre(*api.BindingEntry)
+//@   loop 0 invariant len: len(newBindingEntries) == Fcnt($k)
+//@   loop 0 invariant elems: forall j int :: 0 <= j && j < $k && kept($s[j]) ==> newBindingEntries[Fcnt(j)] == $s[j]
